@@ -98,9 +98,9 @@ def run_instance(args):
         elif undecided_vcs and ex.symbols:
             # the solvers gave no verdict: look for a concrete witness by running the real code on
             # solver-sampled inputs that satisfy the precondition (falsification by replay)
-            c = conformance(h, ex, seed, 12 if tier == "quick" else 60, apply_stubs=False)
-            if not c["mismatches"] and ex.assumed:
-                c = conformance(h, ex, seed, 12 if tier == "quick" else 60, apply_stubs=True)
+            # with assumed contracts in play the real callee is patched to behave as assumed, so that a failing run
+            # is a counterexample to the unit under contract and not to the assumption (e.g. circle-fit accuracy)
+            c = conformance(h, ex, seed, 12 if tier == "quick" else 60, apply_stubs=bool(ex.assumed))
             out["falsification"] = {k: (len(v) if isinstance(v, list) else v) for k, v in c.items()}
             if c["mismatches"]:
                 mm = c["mismatches"][0]
